@@ -56,8 +56,38 @@ def bundle_vs_single(case):
     return None
 
 
+STD_ATTRS = [(1, 1, a) for a in range(1, 8)] + [(0xF5, 1, a) for a in (1, 2, 3, 4, 6)] + [(2, 1, 1), (0xAC, 1, 1), (0xAC, 1, 3), (0x77, 1, 1), (1, 1, 99)]
+
+
+def gen_std(ctx):
+    """Bundles that also address the simulator's standard (non-tag) objects - Identity, TCP/IP, Logical Segments -
+    judged by the bundle-vs-single oracle only (those objects are not part of the tag-store model)."""
+    n = 600 if ctx.thorough else 70
+    cases = []
+    for _ in range(n):
+        tags = L.gen_tags(ctx.rng, maxlen=8)
+        addrs = L.layout(tags)
+        members = []
+        for _ in range(ctx.rng.randint(2, 8)):
+            if ctx.rng.random() < 0.4:
+                c, i, a = ctx.rng.choice(STD_ATTRS)
+                members.append(('get', ('num', c, i, a, None)))
+            else:
+                members.append(L.gen_req(ctx.rng, tags, addrs, valid_bias=0.7))
+        cases.append((488, tags, [('multi', members)]))
+    return cases
+
+
 def run(ctx):
     ctx.prove()
+    nstd = 0
+    for c in gen_std(ctx):
+        nstd += 1
+        res = bundle_vs_single(c)
+        if res is not None:
+            ctx.violation(dict(case=L.describe_case(c), at_request=res[0]), res[1])
+            break
+    ctx.coverage['oracle_only_bundles_with_standard_objects'] = nstd
     L.logix_check(ctx, 'C07', gen(ctx), extra_oracle=bundle_vs_single,
                   rule='seeded histories of 1-4 bundles (1-9 members mixing Read/Write Tag [Fragmented] and Get/Set Attribute Single, ~40% '
                        'invalid) interleaved with single requests, over random tag configurations; each history is also executed with every bundle '
